@@ -68,9 +68,6 @@ structure Db where
   lastCleanupTs : Nat := 0
   txns : List TxnM := []
   now : Nat := 0
-  /-- ghost, maintained by the driver: version of the newest end-of-transaction marker
-      (`!badger!txn@commitTs`) on disk; `DB.MaxVersion` at `Open` sees it (not a user entry) -/
-  markerTs : Nat := 0
   deriving Repr, Inhabited
 
 def txnKeyLen : Nat := 11   -- len("!badger!txn")
